@@ -113,6 +113,9 @@ func c14Run(c *mon.Ctx, key *world.Key, caseID, policy string) {
 	w := world.New(c01Name, key)
 	w.SkipAuth = true
 	w.Remote = c14Server(key)
+	// in half of the runs the store and the transport hand the very same bytes to every client that asks
+	// for the same thing (an mmap'ed cache): a client that writes into what it was handed races with the others
+	w.ShareBytes = r.IntN(2) == 0
 	K := []int{1, 2, 4}[r.IntN(3)]
 	G := []int{2, 4, 8, 16}[r.IntN(4)]
 	nMods := 3 + r.IntN(len(c14Mods)-2)
@@ -437,6 +440,12 @@ func c14Run(c *mon.Ctx, key *world.Key, caseID, policy string) {
 	finalN, okFinal := w.SignedSize(cfg[c01Name+"/latest"])
 	if maxDeliveredN > 0 && (!okFinal || finalN != maxDeliveredN) {
 		viol("final-config-head-is-not-largest-tree-seen", map[string]any{"final_n": finalN, "largest_delivered_n": maxDeliveredN})
+	}
+	if w.ShareBytes {
+		c.Class("store-hands-out-shared-bytes")
+		if ch := w.HandedOutIntact(); len(ch) > 0 {
+			viol("client-wrote-into-bytes-it-was-handed", map[string]any{"buffers": ch})
+		}
 	}
 	_, wv := w.Snapshot()
 	for _, v := range wv {
